@@ -359,6 +359,12 @@ def gen_sentence(rng, max_atoms=300):
 
 
 FIXED = [  # (string, expected outcome)
+    # indices and counts beyond the interpreter's small-integer cache (257+) and beyond 999
+    ("C300/(1-2)(299-299)", "reject"), ("C300/(1-2)(257-257)", "reject"), ("C300/(1-2)(300-300)", "reject"), ("C300/(299-300)(256-256)", "reject"),
+    ("C300/(1-2)(299-300)", "accept"), ("C300/(257-258)(258-257)", "accept"), ("C300/(1-301)", "reject"), ("C300/(301-1)(1-2)", "reject"),
+    ("C300/(1-2)/(257:mass=13)(257:mass=13)", "reject"), ("C300/(1-2)/(300:mass=1000)", "accept"), ("C300/(1-2)/(301:mass=13)", "reject"),
+    ("C1001/(1000-1001)(1-1000)", "accept"), ("C1001/(1001-1001)", "reject"), ("C1000H2/(1-1001)(1000-1002)", "accept"), ("C999/(999-1000)", "reject"),
+    ("C1200/(1-2)/(1100:rad=2,mass=1000)", "accept"),
     ("/", "accept"), ("//", "accept"), ("C/", "accept"), ("C//", "accept"), ("CH4//", "accept"), ("CH4/", "accept"),
     ("CH4/(1-5)(2-5)(3-5)(4-5)", "accept"), ("H/", "accept"), ("H2/(1-2)", "accept"), ("HO/", "accept"), ("H2O/(1-3)(2-3)", "accept"),
     ("CCl/", "accept"), ("ClH/", "accept"), ("CHCl/", "accept"), ("CCl4/(1-2)", "accept"), ("BrH/", "accept"), ("CBrClFI/", "accept"),
